@@ -986,11 +986,10 @@ theorem getParameters_error_iff (up : Text → Text) (ks : List Node) (e : PyErr
     obtain ⟨c', sub, rfl⟩ := tokenNextBy_inst_some up ks _ h
     simp
 
-/-- **`get_window()` never returns `None`**: without an `Over` child it raises AttributeError (the
-`if not over_clause` test is applied to a 2-tuple), with an empty `Over` IndexError -/
+/-- **`get_window()`**: without an `Over` child it returns `None`; it raises (IndexError) only on an empty `Over` group -/
 theorem getWindow_error_iff (up : Text → Text) (ks : List Node) :
-    (getWindow up ks = .error .attributeError ↔ ∀ k ∈ ks, k.isInst .Over = false) ∧
-    (∀ e, getWindow up ks = .error e → e = .attributeError ∨ e = .indexError) := by
+    (getWindow up ks = .ok none ↔ ∀ k ∈ ks, k.isInst .Over = false) ∧
+    (∀ e, getWindow up ks = .error e → e = .indexError) := by
   rw [← tokenNextBy_inst_none_iff up]
   unfold getWindow
   cases h : tokenNextBy up ks [.Over] [] .none with
@@ -1021,7 +1020,7 @@ def witnessFx : List Node :=
    .grp .Parenthesis [.tok T.Punctuation [40], .grp .Identifier [.tok T.Name [120]], .tok T.Punctuation [41]]]
 
 /-- `get_window()` raises AttributeError on the tree `parse` builds for `f(x)` — every Function without OVER -/
-example : getWindow id witnessFx = .error .attributeError := by rfl
+example : getWindow id witnessFx = .ok none := by rfl
 
 example : (getParameters id witnessFx).map (·.map (·.1)) = .ok [[1, 1]] := by rfl
 
